@@ -41,8 +41,12 @@ CalcAll(s, ns) ==
   IN Go(s, 1)
 Bare(cs) == [i \in 1..Len(cs) |-> [cs[i] EXCEPT !.ind = EmptyKV, !.sub = EmptyKV]]
 
+\* manager configurations explored (MC_EngineEmit widens this, the menu, the pairs and the alphabet)
+MCfgs == {MkCfg(0, FALSE, -1, FALSE), MkCfg(TF, FALSE, -1, FALSE), MkCfg(TF, TRUE, -1, FALSE)}
+ChunkMax == 2
+
 Init ==
-  /\ mcfg \in {MkCfg(0, FALSE, -1, FALSE), MkCfg(TF, FALSE, -1, FALSE), MkCfg(TF, TRUE, -1, FALSE)}
+  /\ mcfg \in MCfgs
   /\ \E pr \in Pairs : reg = <<pr[1], pr[2]>>
   /\ raw = <<>>
   /\ st = [cs |-> <<>>, work |-> {}]
@@ -51,10 +55,12 @@ Init ==
   /\ last = Op("init", 0, 0)
 
 AppendStep ==
-  /\ \E n \in 1..2 : \E ks \in [1..n -> 1..Len(Sym)] : \E gs \in [1..n -> {1, 2}] :
+  /\ \E n \in 1..ChunkMax : \E ks \in [1..n -> 1..Len(Sym)] : \E gs \in [1..n -> {1, 2}] :
        /\ Len(raw) + n <= MaxLen
        /\ LET t0  == IF raw = <<>> THEN 0 ELSE Last(raw).ts
-              new == [q \in 1..n |-> MkSym(ks[q], t0 + (IF n = 2 /\ q = 2 THEN gs[1] + gs[2] ELSE gs[1]))]
+              RECURSIVE Off(_)
+              Off(q) == IF q = 0 THEN 0 ELSE Off(q - 1) + gs[q]
+              new == [q \in 1..n |-> MkSym(ks[q], t0 + Off(q))]
               m   == MgrAppend(st.cs, new, mcfg)
           IN /\ m.ok
              /\ raw' = raw \o new
@@ -74,8 +80,11 @@ Maint ==
           /\ UNCHANGED reg
        \/ /\ st' = Calculate([cs |-> Purge(st.cs, c), work |-> {}], c) /\ pend' = pend \ {n}
           /\ last' = Op("recalculate", n, 0) /\ UNCHANGED reg
+       \* (C14's precondition: the position's predecessors are computed -- under a lifespan the front of
+       \*  the list has lost them, recomputing there is outside every property)
        \/ /\ n \notin pend
-          /\ \E i \in 1..Len(st.cs) : /\ st' = CalculateIndex([st EXCEPT !.work = {}], c, i)
+          /\ \E i \in 1..Len(st.cs) : /\ (mcfg.life >= 0 => i - 1 >= Warm(c))
+                                       /\ st' = CalculateIndex([st EXCEPT !.work = {}], c, i)
                                        /\ last' = Op("calculate_index", n, i)
           /\ pend' = pend /\ UNCHANGED reg
        \/ /\ Len(reg) > 1
